@@ -206,6 +206,17 @@ func checkC06(c *core.Ctx, r *core.Report) {
 				cachedFinal = true
 			}
 		}
+		// ... and the exemption holds only while Rewind leaves the flag that gates the stored result alone:
+		// a Rewind that clears it makes the next pass accumulate on top of the first pass's state
+		clearedFlag := ""
+		if cachedFinal {
+			for f, ld := range finalGuardFields(final) {
+				if w, ok := ra.writes[f]; ok {
+					cachedFinal = false
+					clearedFlag = fmt.Sprintf(" (Rewind writes %s at %s, which gates the stored result of GetFinalResultIfExists at %s, so the stored result is not replayed and the next pass accumulates on top of the first)", f.Name(), c.Pos(w.Pos()), c.Pos(ld.Pos()))
+				}
+			}
+		}
 		// two-pass accumulator: Rewind writes a field that Process reads
 		twoPass := false
 		for f := range ra.writes {
@@ -258,8 +269,150 @@ func checkC06(c *core.Ctx, r *core.Report) {
 			case exceptions[tname+"."+f.Name()] != "":
 				r.Assume("REWIND", construct, c.Pos(pa.writes[f].Pos()), "exception: "+exceptions[tname+"."+f.Name()])
 			default:
-				r.Violation("REWIND", construct, c.Pos(pa.writes[f].Pos()), fmt.Sprintf("%s keeps cross-batch state in field %s (written and read by Process) that Rewind does not re-assign: when a later two-pass command (fillnull without field list, bin without span) replays the input, this command continues from where the first pass ended and the second pass sees different rows", tname, f.Name()))
+				r.Violation("REWIND", construct, c.Pos(pa.writes[f].Pos()), fmt.Sprintf("%s keeps cross-batch state in field %s (written and read by Process) that Rewind does not re-assign: when a later two-pass command (fillnull without field list, bin without span) replays the input, this command continues from where the first pass ended and the second pass sees different rows%s", tname, f.Name(), clearedFlag))
 			}
+		}
+	}
+
+	// ---------------------------------------------------------------- (6) where the parallel section of a chain ends
+	{
+		cps := c.Fn(pkgProcessor, "CanParallelSearch")
+		dpT := c.NamedType(pkgProcessor, "DataProcessor")
+		loops := core.Loops(cps)
+		type pred struct {
+			name      string
+			mustFalse bool // the scan ends with "cannot split"
+			why       string
+		}
+		preds := []pred{
+			{"DoesInputOrderMatter", true, "a command whose result depends on the order of its input sits in the cloned part of the chain: each clone sees an arbitrary share of the blocks"},
+			{"GeneratesData", true, "a generating command would be cloned and generate its rows once per chain"},
+			{"IsBottleneckCmd", false, "a command that must see its whole input before it answers (sort, stats, tail, and the two-pass commands on their first pass) is cloned into every parallel chain and answers from that chain's share of the blocks only"},
+		}
+		n := 0
+		for _, pd := range preds {
+			m := method(dpT, pd.name)
+			if m == nil {
+				panic(core.AnchorError{What: "DataProcessor." + pd.name})
+			}
+			for _, ci := range core.CallsIn(cps) {
+				if ci.Common().StaticCallee() != m {
+					continue
+				}
+				call, ok := ci.(*ssa.Call)
+				if !ok {
+					continue
+				}
+				n++
+				construct := fmt.Sprintf("%s:%s-ends-the-parallel-section", shortFn(cps), pd.name)
+				lp := core.InnermostLoop(loops, call.Block())
+				if lp == nil {
+					r.Undecided("GUARD", construct, c.Pos(call.Pos()), "the predicate is not evaluated inside the scan loop")
+					continue
+				}
+				// from every edge on which the predicate is true the scan must end (no way back to the loop header)
+				var leak *ssa.BasicBlock
+				var wrongRet *ssa.Return
+				decided := false
+				for _, b := range cps.Blocks {
+					ifi, ok := core.LastIf(b)
+					if !ok {
+						continue
+					}
+					cond, neg := ifi.Cond, false
+					if u, ok := cond.(*ssa.UnOp); ok && u.Op == token.NOT {
+						cond, neg = u.X, true
+					}
+					if cond != ssa.Value(call) {
+						continue
+					}
+					decided = true
+					start := b.Succs[0]
+					if neg {
+						start = b.Succs[1]
+					}
+					seen := map[*ssa.BasicBlock]bool{start: true}
+					work := []*ssa.BasicBlock{start}
+					for len(work) > 0 {
+						x := work[len(work)-1]
+						work = work[:len(work)-1]
+						if x == lp.Header {
+							if leak == nil {
+								leak = x
+							}
+							continue
+						}
+						if len(x.Instrs) > 0 {
+							if ret, ok := x.Instrs[len(x.Instrs)-1].(*ssa.Return); ok && pd.mustFalse {
+								if k, ok := ret.Results[0].(*ssa.Const); !ok || k.Value == nil || k.Value.String() != "false" {
+									wrongRet = ret
+								}
+							}
+						}
+						for _, sc := range x.Succs {
+							if !seen[sc] {
+								seen[sc] = true
+								work = append(work, sc)
+							}
+						}
+					}
+				}
+				// ... and the region where it is true must exist and cover the true edge of the test
+				switch {
+				case !decided:
+					r.Violation("GUARD", construct, c.Pos(call.Pos()), "the result of "+pd.name+"() does not decide whether the scan ends: "+pd.why)
+				case leak != nil:
+					r.Violation("GUARD", construct, c.Pos(call.Pos()), "the scan can continue past a command for which "+pd.name+"() is true: "+pd.why)
+				case wrongRet != nil:
+					r.Violation("GUARD", construct, c.Pos(wrongRet.Pos()), "the scan ends at a command for which "+pd.name+"() is true with an answer other than `cannot split`: "+pd.why)
+				default:
+					r.OK("GUARD", construct, c.Pos(call.Pos()), "no path on which "+pd.name+"() is true returns to the loop header")
+				}
+			}
+		}
+		r.Floor("GUARD", "planner predicates tested in CanParallelSearch", n, 3)
+		// the answer `can split` needs an order-insensitive command in the cloned part
+		ign := method(dpT, "IgnoresInputOrder")
+		for _, ret := range core.Returns(cps) {
+			if _, isConst := ret.Results[0].(*ssa.Const); isConst {
+				if k := ret.Results[0].(*ssa.Const); k.Value != nil && k.Value.String() == "true" {
+					r.Violation("GUARD", shortFn(cps)+":split-needs-an-order-insensitive-command", c.Pos(ret.Pos()), "CanParallelSearch answers `can split` unconditionally")
+				}
+				continue
+			}
+			ok := true
+			seen := map[ssa.Value]bool{}
+			var walk func(v ssa.Value, from *ssa.BasicBlock)
+			walk = func(v ssa.Value, from *ssa.BasicBlock) {
+				if seen[v] {
+					return
+				}
+				seen[v] = true
+				switch x := v.(type) {
+				case *ssa.Phi:
+					for i, e := range x.Edges {
+						walk(e, x.Block().Preds[i])
+					}
+				case *ssa.Const:
+					if x.Value != nil && x.Value.String() == "true" {
+						guarded := false
+						for _, ci := range core.CallsIn(cps) {
+							if call, isCall := ci.(*ssa.Call); isCall && ci.Common().StaticCallee() == ign && from != nil && core.BoolKnownAt(call, from) == core.Yes {
+								guarded = true
+							}
+						}
+						if !guarded {
+							ok = false
+						}
+					}
+				default:
+					ok = false
+				}
+			}
+			walk(ret.Results[0], nil)
+			r.Check(ok, "GUARD", shortFn(cps)+":split-needs-an-order-insensitive-command", c.Pos(ret.Pos()),
+				"the answer is true only where IgnoresInputOrder() was true for a command of the cloned part",
+				"CanParallelSearch can answer `can split` although no command of the cloned part ignores the order of its input: the merged output of the parallel chains is in a different order than the single chain's")
 		}
 	}
 
@@ -570,4 +723,57 @@ func sameExpr(a, b ssa.Value, depth int) bool {
 		return ok && sameExpr(x.X, y.X, depth+1)
 	}
 	return false
+}
+
+// finalGuardFields: receiver fields whose loaded value reaches a branch condition of fn.
+func finalGuardFields(fn *ssa.Function) map[*types.Var]ssa.Instruction {
+	out := map[*types.Var]ssa.Instruction{}
+	if fn == nil {
+		return out
+	}
+	var feeds func(v ssa.Value, depth int) bool
+	feeds = func(v ssa.Value, depth int) bool {
+		if depth > 4 {
+			return false
+		}
+		refs := v.Referrers()
+		if refs == nil {
+			return false
+		}
+		for _, u := range *refs {
+			switch x := u.(type) {
+			case *ssa.If:
+				return true
+			case *ssa.BinOp:
+				if feeds(x, depth+1) {
+					return true
+				}
+			case *ssa.UnOp:
+				if x.Op == token.NOT && feeds(x, depth+1) {
+					return true
+				}
+			case *ssa.Phi:
+				if feeds(x, depth+1) {
+					return true
+				}
+			}
+		}
+		return false
+	}
+	for _, b := range fn.Blocks {
+		for _, in := range b.Instrs {
+			ld, ok := in.(*ssa.UnOp)
+			if !ok || ld.Op != token.MUL {
+				continue
+			}
+			fa, ok := ld.X.(*ssa.FieldAddr)
+			if !ok {
+				continue
+			}
+			if f := core.FieldOfAddr(fa); f != nil && feeds(ld, 0) {
+				out[f] = ld
+			}
+		}
+	}
+	return out
 }
